@@ -12,6 +12,9 @@
   Z4 the location's timeout bounds the fetch (client built with it)
   Z5 the downstream response is written by the protocol's single sink, which
      sanitises whatever the upstream sent (= C01.W3)
+  Z6 an upstream reset (at any point, also after the header) or a close before
+     the header reaches the fetch as an exception: abstract evaluation of the
+     client protocol's connection_lost (= C13.E1b), so Z1 maps it to 43
 Not decided: every fault-timing combination.
 """
 
@@ -36,7 +39,10 @@ EXPLANATION = (
     "response whose body is `response.body.encode(<that charset>)` with status and meta passed "
     "through; otherwise the upstream response object itself is returned. (Z4) the client is "
     "built with the handler's timeout and the router passes the location's. (Z5) relayed "
-    "headers go through the protocol sink proven by C01.W3."
+    "headers go through the protocol sink proven by C01.W3. (Z6) connection_lost of the client "
+    "protocol the proxy fetches with is interpreted abstractly with exc set (header received or "
+    "not) and with a clean close before any header: every feasible path ends in set_exception, "
+    "so an upstream reset mid-body cannot be relayed as a truncated 20."
 )
 
 PROXY = "server.proxy:ProxyHandler"
@@ -192,5 +198,10 @@ def run(chk: Check) -> None:
     if fn is not None:
         rule_z3(chk, ci, fn)
     rule_z4(chk, ci)
+    # Z6: an upstream that resets or closes early surfaces as an exception at the
+    # fetch (and is then mapped to 43 by Z1), never as a truncated success
+    from .c13 import rule_e1b
+
+    rule_e1b(chk, "Z6", ["client.protocol:GeminiClientProtocol"])
     chk.trusted = ["CPython ast parser", "engine CFG / abstract evaluator", "str.encode(X) inverts bytes.decode(X) for the charset the upstream declared", "C01.W3 sanitises whatever header the upstream sent"]
     chk.assumptions = ["byte-exact relay for codecs whose decode/encode is not a bijection (BOMs, stateful encodings) is not decided"]
